@@ -34,9 +34,20 @@ const DECOR_PREDICATES: [u64; 14] = [3, 5, 6, 1, 50, 100, 101, 102, 108, 4, 16, 
 fn decorate(e: Envelope, src: &mut Src, ctx: &mut Ctx) -> Envelope {
     let pool = keys::core_pool();
     let mut e = e;
+    // a quarter of the decorated inputs are otherwise well-formed request / response / event envelopes, so
+    // that the parsers get past their subject checks and meet the decorated 'body' / 'result' / 'error' /
+    // 'content' / 'note' / 'date' assertions
+    let family = src.below(8);
+    if family < 3 {
+        let tag = [40004u64, 40005, 40026][family];
+        let subject = Envelope::new(CBOR::to_tagged_value(tag, ARID::from_data([src.byte(); 32])));
+        e = e.replace_subject(subject);
+        ctx.class("decor:expression-family-subject");
+    }
+    let family_preds: [u64; 6] = [100, 101, 102, 108, 4, 16];
     let n = 1 + src.below(4);
     for _ in 0..n {
-        let pv = DECOR_PREDICATES[src.below(DECOR_PREDICATES.len())];
+        let pv = if family < 3 && src.chance(170) { family_preds[src.below(family_preds.len())] } else { DECOR_PREDICATES[src.below(DECOR_PREDICATES.len())] };
         let pred = bridge::known(pv);
         // object: valid for the predicate, or bogus
         let valid = src.chance(140);
